@@ -206,9 +206,12 @@ def program_case(mode, nops):
                 elif want is None:
                     pass
                 elif isinstance(want, int):
-                    ctx.prove(lift(got) == want, label)
+                    if "a" not in mode:              # (documented: tell() may be inaccurate in append mode)
+                        ctx.prove(lift(got) == want, label)
                 else:
                     ctx.prove(P.beq(got, want), label)
+            if not dirty and "a" not in mode:       # tell() is documented as possibly inaccurate in append mode
+                ctx.prove(lift(f.tell()) == ref.pos, "position-after-the-program-identical")
             f.close()
             ctx.prove(P.beq(files["/f"].data, ref.data), "final-file-content-identical" +
                       ("(after-a-read-with-an-unflushed-buffered-write-pending)" if tainted else ""))
